@@ -30,6 +30,7 @@ FORMS = {
     'vslots-el': '<Foo v-slots=<b/>/>', 'dir-element': '<div v-foo=<b/> />', 'dir-fragment': '<div v-foo=<>x<i/></> />', 'show-fragment': '<div v-show=<>y</> />',
     'dir-ns-fragment': '<Foo v-foo:arg_m=<>z</> />', 'dir-camel-element': '<Foo vFoo_m=<b>{{v1}}</b> />', 'model-element': '<input v-model=<b/> />', 'model-fragment': '<Foo v-model=<>m</> />',
     'models-element': '<Foo v-models=<b/> />',
+    'on-ns': '<div on:click={{v1}} on:update-value={{v2}}/>', 'nativeon-ns': '<Foo nativeOn:key-up={{v1}} on:after-leave/>', 'on-ns-member': '<v1.a.b on:x-y={{v2}}/>', 'on-obj-keys': '<div on={{{{"a-b": v1, c: v2}}}}/>',
     'model-sum': '<input v-model={{v1 + v2}}/>', 'model-call': '<Foo v-model={{f1()}}/>', 'model-lit': '<Foo v-model={{1}}/>', 'model-arrow': '<input v-model={{() => v1}}/>', 'model-cond': '<Foo v-model={{v1 ? v2 : v3}}/>',
     'model-this': '<Foo v-model={{this}}/>', 'model-optchain': '<Foo v-model={{v1?.x}}/>', 'models-sum': '<Foo v-models={{[[v1 + v2, "a"]]}}/>', 'model-paren-member': '<Foo v-model={{(v1.x)}}/>', 'model-index': '<Foo v-model={{v1[v2]}}/>', 'arg-nonstr': '<div v-foo:arg={{v1}}/>', 'ns-dir-suffix': '<div v-foo:a-b_c-d={{v1}}/>',
 }
@@ -46,6 +47,9 @@ MODULES = {
     'class-members': "class K {{ static s = <a/>; f = () => <b/>; [v1] = <i/>; m(p = <u/>) {{ return <s>{{p}}</s> }} get g() {{ return <>g</> }} static {{ f1(<em/>) }} }}",
     'params-patterns': "function g({{ a = <a/> }} = {{}}, [b = <b/>] = [], ...r) {{ return [a, b, r] }} const h = ({{ x: {{ y = <i/> }} = {{}} }}) => y;",
     'templates-tags': "const t = `a${{<b/>}}c${{`n${{<i/>}}`}}`, u = f1`x${{<u/>}}`;",
+    'await-child': "async function f() {{ return <Foo>{{await v1}}</Foo>; }} async function g() {{ return <div>{{await v1}}</div>; }}",
+    'await-child-kids': "const h = async () => <Foo a={{await v1}}>x{{await v2}}</Foo>;",
+    'yield-child': "function* g() {{ const x = <Foo>{{yield v1}}</Foo>; return x; }}",
     'exports': "export default <div/>;\nexport const a = <a/>, b = [<b/>, ...[<i/>]];",
     'ts-wrappers': "const a = (<a/> as any), b = (<b/>)!, c = (<i/> satisfies object), d = f1<string>(<u/>);\nenum E {{ A = 1 }}\nnamespace N {{ export const n = <s/> }}\nabstract class Q {{ p: any = <em/>; constructor(public q = <q/>) {{}} }}",
     'control-flow': "if (v1) v2 = <a/>; else v2 = <b/>; for (const x of [<i/>]) f1(x); while (f1(<u/>)) break; do v3 = <s/>; while (0); switch (v1) {{ case <em/>: break }} try {{ throw <q/> }} catch (e) {{ f1(<p/>) }} lbl: v4 = <span/>;",
@@ -67,6 +71,8 @@ def make_skeleton(spec):
         head = '/* %s */\n' % spec['pragma_comment']
     src = head + PRELUDE + 'const _0 = %s;\n' % f
     opts = {'optimize': 'sym', 'merge_props': 'sym'}
+    if spec['form'].startswith(('on-', 'nativeon-')):
+        opts['transform_on'] = 'sym'
     return Skeleton('c07#%s|%s|%s' % (spec['form'], spec.get('n', ''), spec.get('pragma_comment', '')), src, leaves, opts, meta={'family': 'c07'})
 
 
@@ -157,6 +163,26 @@ def scan(ctx, program, jsx_spans=()):
                 s = v.fields[0].get('sym')
                 conds.append(('a member property is an IdentifierName', ident_name_ok(ctx, s), {'key': s}))
     astio.walk(program, f)
+    # `await` / `yield` must sit directly in an async / generator function (top-level await aside)
+    def g(v, fn):
+        v = deref(v)
+        if isinstance(v, list):
+            for x in v:
+                g(x, fn)
+            return
+        if not isinstance(v, Adt):
+            return
+        if v.ty in ('Function', 'ArrowExpr'):
+            fn = ('async' if v.get('is_async') else '') + ('gen' if v.get('is_generator') else '') or 'plain'
+        elif v.ty in ('Constructor', 'GetterProp', 'SetterProp', 'StaticBlock', 'ClassProp', 'PrivateProp'):
+            fn = 'plain'
+        if v.ty == 'AwaitExpr' and fn is not None and 'async' not in fn:
+            conds.append(('`await` only inside an async function', False, {'key': SStr.of('await')}))
+        if v.ty == 'YieldExpr' and (fn is None or 'gen' not in fn):
+            conds.append(('`yield` only inside a generator', False, {'key': SStr.of('yield')}))
+        for x in v.fields:
+            g(x, fn)
+    g(program, None)
     return jsx, conds
 
 
@@ -203,6 +229,8 @@ def classify(v, detail):
               'member-tag': 'member-tag-is-left-as-jsx-member-expression', 'member-this': 'member-tag-is-left-as-jsx-member-expression', 'member-deep': 'member-tag-is-left-as-jsx-member-expression'}
     if form in groups:
         return groups[form]
+    if form.startswith(('module:await-child', 'module:yield-child')):
+        return 'await-or-yield-written-in-component-children-ends-up-in-a-plain-slot-function'
     if 'str-sym' in form:
         return 'jsx-attribute-string-copied-verbatim-into-a-js-string-literal:' + ('directive' if form.startswith(('html', 'text', 'dir')) else 'attribute')
     if form.startswith('mod-'):
